@@ -7,6 +7,10 @@ init() on the simulated chipsets of sim/chip_*.py) through ContactlessFrontend.e
 is one event [d, k, m, at, c, f, v, o, x]; Trace_DriverErr.tla checks per event that the host command
 at position `at` is the one the spec lists, that the outcome class is in Allowed, and per batch that
 the set of recorded cases equals the spec's Cases for the slice that was run.
+Target variants (DriverErr!Vars, bind/c13_drivers.variants): every exchange kind also runs with the activated target
+at every bit rate / technology / SEL_RES class the driver's sense_* methods accept ("TT4B@848B", "TT2@106A/08",
+"DEPA@424F/psl" ..); the simulated chips hold a remote device that talks that bit rate and technology only
+(sim/chip_*: card), so a wrong speed / framing / InSetRF setting shows as a time-out of the fault-free exchange.
 """
 import json
 
@@ -146,6 +150,7 @@ def cancelled(rig, at):
 
 def run_case(rig, kind, at, k, v):
     send, tmo = D.prepare(rig, kind)
+    D.place_card(rig, kind)
     if at and rig.driver == "udp" and k == "CutBody":
         rig.chip.arm(U.UFault(at, "raw", rig.net.reply[:max(0, min(v, len(rig.net.reply) - 1))]))
     else:
@@ -161,11 +166,13 @@ def walk(driver, tier, only_kinds=None):
     """-> list of batches (one per kind) of events."""
     rig = D.Rig(driver)
     batches = []
-    for kind in list(D.SUPPORT[driver]) + D.len_kinds(driver):
+    all_kinds = list(D.SUPPORT[driver]) + D.len_kinds(driver) + D.var_kinds(driver)
+    for kind in all_kinds:
         if only_kinds and kind not in only_kinds:
             continue
         mode = D.KINDS[kind][0]
-        ftier = "reach" if kind in D.len_kinds(driver) else tier
+        # payload length kinds and target variants: the small fault sample (DriverErr tier "reach") at every command
+        ftier = "reach" if D.base_kind(kind) != kind else tier
         o, x, val = run_case(rig, kind, 0, None, None)
         names = list(rig.chip.log)
         ev = [dict(d=driver, k=kind, m=mode, at=0, c="-", f="None", v=0, o=o, x=x,
@@ -191,6 +198,9 @@ def walk(driver, tier, only_kinds=None):
                                same=bool(o == "Data" and bytes(val) == D.expected_data(rig, kind)), cancel=LAST_CANCEL[0]))
         batches.append(dict(id="%s/%s/%s" % (driver, kind, tier),
                             slice=dict(d=driver, k=kind, tier=tier, n=n, cover=True), ev=ev))
+    if batches and not only_kinds:
+        # the exchange kinds walked for this driver: Trace_DriverErr compares them with DriverErr!ExKinds(d)
+        batches[0]["slice"]["kinds"] = all_kinds
     return batches
 
 
@@ -344,12 +354,16 @@ def key_of(e, n):
     final = e["at"] == n
     f, o = e["f"], e["o"]
     out = o if o != "Internal" else e["x"]
-    if D.base_kind(e["k"]) != e["k"] and o in ("Internal", "NoData", "CommOther") and \
+    if "@" not in e["k"] and D.base_kind(e["k"]) != e["k"] and o in ("Internal", "NoData", "CommOther") and \
             (f == "None" or e["x"] in ("ValueError", "AssertionError", "OverflowError")):
         return "%s:%s:payload-length(%s)->%s" % (fam, e["m"], e["k"][2:], out)
     garble = f in ("ShortFrame", "CutTail", "BadChecksum", "Garbled")
     if o == "Hang":
         return "%s:send_command:no-answer->Hang" % fam
+    if "@" in e["k"] and (f == "None" or e.get("asfree")):
+        # a target variant whose exchange fails without a fault (and in the same way under any fault): the input
+        # class is the activated target -- base kind @ bit rate / technology [/ class]
+        return "%s:%s:target(%s):no-fault->%s" % (fam, e["m"], e["k"], out)
     if f in ("CutBody", "CutBodyX") and o != "Hang":
         cut = "cut-body%s(%d)" % ("-ext" if f == "CutBodyX" else "", e["v"])
         if e["v"] < 2 and fam != "udp":                 # nothing of the answer left: the frame decoder's business
@@ -374,6 +388,8 @@ def key_of(e, n):
         site = e["m"]
     if site in ("target", "initiator", "initiator-tt2"):
         site += ":final" if final else ":prep"
+    if "@" in e["k"]:
+        site = "%s:target(%s)" % (site, e["k"])
     if fam == "rcs380" and final and f == "ErrorFrame":
         what = "bad-frame"
     elif f in ("ChipStatus", "CommStatus", "ErrorFrame"):
@@ -393,7 +409,7 @@ def key_of(e, n):
 
 # ------------------------------------------------------------------------------------------------
 WITNESSES = ["W_Data", "W_Timeout", "W_BrokenLink", "W_Transmission", "W_Protocol", "W_IOErr", "W_NoData",
-             "W_Target", "W_NoTarget", "W_Unsupported"]
+             "W_Target", "W_NoTarget", "W_Unsupported", "W_VarData", "W_VarTimeout"]
 
 
 def selftest_traces(b, op=False):
@@ -453,6 +469,11 @@ def run(tier, seed):
     by_id = {b["id"]: b for b in batches}
     st = selftest_traces(by_id["%s/TT4A/%s" % (drivers[0], tier)]) + \
         selftest_traces(by_id["pn532/LDEPF/%s" % tier], op=True)
+    # a harness that leaves a target variant out must be noticed (the slice that lists the kinds walked)
+    t5 = json.loads(json.dumps(next(b for b in batches if "kinds" in b["slice"])))
+    t5["id"] += "-variant-not-walked"
+    t5["slice"]["kinds"] = [k for k in t5["slice"]["kinds"] if "@" not in k or not k.startswith("DEPA@")]
+    st.append((t5, t5["id"]))
     verdicts, stats = tlc.validate_traces("Trace_DriverErr.tla", "Trace_DriverErr.cfg", PID,
                                           batches + [t for t, _ in st], shards=16, timeout=900 if quick else 3000)
     for t, must in st:
@@ -472,8 +493,11 @@ def run(tier, seed):
                          replay=dict(kind="slice", driver=b["slice"]["d"], k=b["slice"]["k"], tier=tier))
             continue
         accepted += 1
+        free = b["ev"][0]
         for i, e in enumerate(b["ev"]):
             ncase += 1
+            # (only used for the key) the case fails exactly as the fault-free exchange of its slice already does
+            e["asfree"] = bool(i and free["o"] != "Data" and (e["o"], e["x"]) == (free["o"], free["x"]))
             classes.add((e["d"], e["m"], "final" if e["at"] == n else "prep", e["f"], e["o"]))
             pv = verdicts.get("%s#%d" % (b["id"], i + 1))
             if pv is None:
@@ -496,7 +520,8 @@ def run(tier, seed):
              operation_slices=sum(1 for b in batches if b["slice"]["k"] in OP.OP_KINDS))
     ck.cover(traces_validated_against_impl=ncase, slices_accepted=accepted, slices=len(batches),
              trace_states=stats["states"], distinct_outcome_classes=len(classes),
-             binding_selftest="changed outcome, changed command name, dropped case and dropped cancel ACK all rejected")
+             binding_selftest="changed outcome, changed command name, dropped case, dropped cancel ACK and a target "
+                              "variant left out all rejected")
     ck.sample(dict(slice=batches[0]["id"], first_events=batches[0]["ev"][:3]))
     ck.sample(dict(mc="DriverErr", tier=tier, distinct=r.distinct))
     ck.assume("chipsets and transports are simulated at frame level (sim/chip_*.py): USB/TTY glue of nfc.clf.transport is not executed",
@@ -509,7 +534,11 @@ def run(tier, seed):
               "sense()/listen() outcomes: Target / None / UnsupportedTargetError / IOError; a reported target must carry the "
               "documented bit rate and attributes also under a fault (TargetIntact)",
               "RC-S380 frame checksums are not verified by nfcpy (outside the C14 statement): Data accepted for BadChecksum/CutTail there",
-              "exchange() returning None is accepted only in target mode (documented there), never for an initiator")
+              "exchange() returning None is accepted only in target mode (documented there), never for an initiator",
+              "target variants: every exchange kind also runs with the activated target at every bit rate / technology / "
+              "SEL_RES class the driver's sense_* methods accept and after a PSL switch (small fault sample at every host "
+              "command); the simulated chips answer the RF exchange command only when the driver configured the bit rate, "
+              "framing and modulation that target talks (otherwise the chip's RF time-out)")
     # frontend level (clf/__init__.py is an anchored file): what every public API call returns or raises when another
     # thread closes the frontend before, while or after it - schedules from the C15 machinery, judged against the
     # documented outcome set (IOError(ENODEV) once closed, never AttributeError/TypeError/...)
